@@ -74,6 +74,14 @@ def poly_divmod(
     """
     assert where is True, "changing 'where' is not supported."
     dividend_, divisor = numpoly.align_polynomials(dividend, divisor)
+    # half and single precision operands are divided in double precision, the
+    # type of the quotient: its coefficients may leave the narrow range (and
+    # infinities among the working terms would keep the loop going forever)
+    if dividend_.dtype.kind in "fc" and dividend_.dtype.itemsize < (
+        8 if dividend_.dtype.kind == "f" else 16
+    ):
+        wide = float if dividend_.dtype.kind == "f" else complex
+        dividend_, divisor = dividend_.astype(wide), divisor.astype(wide)
 
     if not dividend_.shape:
         floor, remainder = poly_divmod(
